@@ -430,7 +430,16 @@ def one_case(rep, drv, contents, focus, ci, seed, case_dir, src_root, dst_root, 
         mc, mi = model_dst_canon(model["dst"]); rc_, ri = real_dst_canon(post_dst, contents)
         if mc != rc_:
             diff = {r: (rc_.get(r), mc.get(r)) for r in set(mc) | set(rc_) if mc.get(r) != rc_.get(r)}
-            dis.append(("dst", dict(list(sorted(diff.items()))[:6]), None))
+            # the recorded finding C05/user-file-named-like-temp = C06/extra-named-like-working-file-clobbered (Lean: Refine.refines_counterexample_temp_in_use):
+            # a destination entry bearing the working-file name of a file that this run updated is removed, while the entry-level model keeps it.
+            # It is reported by the C05 / C06 oracles under those signatures; here it is not a NEW disagreement of the model.
+            for r in [r for r in diff if r.endswith(".sy.tmp")]:
+                base = r[:-7]
+                if (rc_.get(r) is None and r in pre_dst and pre_dst[r]["k"] != "d" and (pre_src.get(base) or {}).get("k") == "f" and (pre_dst.get(base) or {}).get("k") == "f"
+                        and base in post_dst and tree_fingerprint({base: pre_dst[base]}) != tree_fingerprint({base: post_dst[base]})):
+                    del diff[r]; rep.tag("known.working-file-name-in-use")
+                    if focus == "C05": rep.oracle_fail("C05/user-file-named-like-temp", f"destination entry {r} bears the working-file name of {base}, which was updated: removed", desc)
+            if diff: dis.append(("dst", dict(list(sorted(diff.items()))[:6]), None))
         elif mi != ri: dis.append(("inode-classes", ri, mi))
     # a check compares the fields its property speaks about (a disagreement elsewhere is another property's business
     # and is decided by that property's check on the same generators)
@@ -754,7 +763,17 @@ def oracles(rep, focus, desc, rc, ev, bad, summ, real_events, real_errors, pre_s
                 else:
                     r = resolve_link(os.path.join(src_root, rel))
                     if r[0] == "f":
-                        if d is None or d["k"] != "f" or d["cid"] != contents.id(r[1]): rep.oracle_fail("C17/follow-content", f"{rel}: follow mode did not copy the linked file's content as a regular file", desc)
+                        # the linked file is judged like a regular file of the target's size and mtime: outside the size bounds it is not selected,
+                        # and a destination file the active comparison (--size-only, default size+mtime) finds up to date is legitimately left alone
+                        tsize = len(r[1]); cmpm = cfg.get("cmp", "d")
+                        if cfg.get("min", "-") != "-" and tsize < cfg["min"]: continue
+                        if cfg.get("max", "-") != "-" and tsize > cfg["max"]: continue
+                        try: tmt = os.stat(os.path.join(src_root, rel)).st_mtime_ns
+                        except OSError: tmt = None
+                        differed = (p is None or p["k"] != "f" or cmpm == "i" or (cmpm == "c" and p["cid"] != contents.id(r[1])) or
+                                    (cmpm == "s" and p["size"] != tsize) or
+                                    (cmpm == "d" and (p["size"] != tsize or tmt is None or mtime_differs(p["mtime"], tmt))))
+                        if d is None or d["k"] != "f" or (differed and d["cid"] != contents.id(r[1])): rep.oracle_fail("C17/follow-content", f"{rel}: follow mode did not copy the linked file's content as a regular file", desc)
     # --- C06: extras untouched without --delete; counterpart never deleted; mirror
     if not dry:
         src_all = set(pre_src)
